@@ -20,7 +20,7 @@ RULE = (
     "case = generated device (holes / terminals / probe points / conductivity each present or absent) with its mesh, a generated option set "
     "(every None-able field set or unset, complex terminal value, solver given as enum or string), a parameter expression tree (depth <= 3) as "
     "applied potential, constant or callable currents and epsilon, and a short solution (3..10 frames) saved to its own file, to a copy and "
-    "from memory; non-trivial = at least one optional component present and one absent, and for options at least one None-valued field; distinct by spec hash"
+    "from memory; plus enumerated harness-made meshes of 11 000 .. 69 000 sites (around the 2^16 index boundary) for the mesh round trip alone; non-trivial = at least one optional component present and one absent, and for options at least one None-valued field; distinct by spec hash"
 )
 ASSUMPTIONS = [
     "Device.__eq__ ignores the mesh, so mesh arrays are compared by the harness (bit for bit)",
@@ -77,15 +77,57 @@ def strategy(tier):
     return _case(tier)
 
 
+def grid(tier):
+    """Meshes far larger than any simulated one (tens of thousands of sites, around the 2^16 index boundary): only the
+    mesh round trip is exercised, which needs no simulation."""
+    sizes = [(110, 100), (256, 256)] if tier == "quick" else [(110, 100), (150, 150), (256, 256), (257, 256), (300, 230)]
+    return [dict(kind="bigmesh", nx=nx, ny=ny, jitter=0.2, k=[1.3, 0.7, 2.1, 0.4], h=0.5) for nx, ny in sizes]
+
+
+def _bigmesh(spec, res):
+    import h5py
+    from tdgl.finite_volume.mesh import Mesh
+
+    from .. import meshgen
+
+    mesh, info = meshgen.make_mesh(dict(src="grid", nx=spec["nx"], ny=spec["ny"], h=spec["h"], jitter=spec["jitter"], k=spec["k"], diag="delaunay"))
+    n = spec["nx"] * spec["ny"]
+    res.label("large mesh (round trip only)", f"sites~{'<=2^16' if n <= 65536 else '>2^16'}")
+    if mesh is None:
+        res.label(f"discarded: {info}")
+        return res
+    res.nontrivial = True
+    with sim.workdir():
+        for compress in (False, True):
+            fn = f"mesh{int(compress)}.h5"
+            with h5py.File(fn, "w") as f:
+                mesh.to_hdf5(f.create_group("m"), compress=compress)
+            with h5py.File(fn, "r") as f:
+                m = Mesh.from_hdf5(f["m"])
+            if compress:
+                mesh_close(res, mesh, m, f"compressed mesh with {len(mesh.sites)} sites")
+            else:
+                mesh_equal(res, mesh, m, f"stored mesh with {len(mesh.sites)} sites")
+    return res
+
+
+def _same_array(x, y):
+    """same values; same dtype for floating-point arrays (index arrays may come back in another integer width)"""
+    x, y = np.asarray(x), np.asarray(y)
+    if x.dtype.kind in "iu":
+        return y.dtype.kind in "iu" and np.array_equal(x, y)
+    return np.array_equal(x, y) and x.dtype == y.dtype
+
+
 def mesh_equal(res, a, b, what):
     for k in MESH_ARRAYS:
         x, y = getattr(a, k), getattr(b, k)
-        if not (np.array_equal(x, y) and np.asarray(x).dtype == np.asarray(y).dtype):
+        if not _same_array(x, y):
             res.fail("C14.mesh_arrays", f"{what}: mesh.{k} differs after the round trip (dtype {np.asarray(x).dtype} vs {np.asarray(y).dtype})")
             return False
     for k in EDGE_ARRAYS:
         x, y = getattr(a.edge_mesh, k), getattr(b.edge_mesh, k)
-        if not (np.array_equal(x, y) and np.asarray(x).dtype == np.asarray(y).dtype):
+        if not _same_array(x, y):
             res.fail("C14.mesh_arrays", f"{what}: edge_mesh.{k} differs after the round trip")
             return False
     if len(a.voronoi_polygons) != len(b.voronoi_polygons) or any(not np.array_equal(p, q) for p, q in zip(a.voronoi_polygons, b.voronoi_polygons)):
@@ -125,6 +167,8 @@ def check_case(spec):
     from tdgl.solver.options import SparseSolver
 
     res = Result()
+    if spec.get("kind") == "bigmesh":
+        return _bigmesh(spec, res)
     dspec = spec["device"]
     dev = build.make_device_or_refuse(dspec)
     present = [bool(dspec["holes"]), bool(dspec["terminals"]), bool(dspec.get("probes")), dspec["layer"].get("conductivity") is not None]
